@@ -11,6 +11,8 @@ package vh
 import (
 	"encoding/json"
 	"fmt"
+	"os"
+	"path/filepath"
 	"testing"
 	"time"
 
@@ -24,7 +26,7 @@ const c15oRule = "TestC15Overlap: mem and dir store; an upload session with 0-2 
 	"document whose code is BLOB_UPLOAD_UNKNOWN (the session is gone) - a 2xx is accepted when every byte had been written before the session went; afterwards the session is unknown (status query 4xx BLOB_UPLOAD_UNKNOWN) unless the PUT completed it; " +
 	"non-trivial = the interruption came after at least one byte of the body and before the last; distinct = hash of the parameters"
 
-func c15oProperty(t *rapid.T, st *Stats) {
+func c15oProperty(t *rapid.T, st *Stats, owner string) {
 	dirStore := rapid.Bool().Draw(t, "dirStore")
 	max := rapid.SampledFrom([]int{2, 3}).Draw(t, "uploadMax")
 	e, cleanup := newEnv(t, st, dirStore, func(c *config.Config) { c.Storage.GC.RepoUploadMax = max })
@@ -82,6 +84,7 @@ func c15oProperty(t *rapid.T, st *Stats) {
 		}
 	}
 	u := loc
+	putDig := ""
 	if method == "PUT" {
 		sep := "?"
 		for _, c := range loc {
@@ -90,7 +93,8 @@ func c15oProperty(t *rapid.T, st *Stats) {
 			}
 		}
 		// another algorithm than the session's makes the completion re-read what was stored
-		u = loc + sep + "digest=" + dig(rapid.SampledFrom([]string{"sha256", "sha256", "sha512"}).Draw(t, "putAlg"), all)
+		putDig = dig(rapid.SampledFrom([]string{"sha256", "sha256", "sha512"}).Draw(t, "putAlg"), all)
+		u = loc + sep + "digest=" + putDig
 	}
 	r = e.do(method, u, content, o)
 	e.logf("%s -> %d %s", method, r.code, trunc(r.body, 120))
@@ -100,6 +104,11 @@ func c15oProperty(t *rapid.T, st *Stats) {
 	}
 	if !interrupted {
 		e.abandon("body was not read to the interruption point")
+		return
+	}
+	if owner == "C08" {
+		c08Overlap(t, st, e, how, method, r, loc, all, content, at, putDig)
+		st.Case(e.trace, at > 0 && at < len(content), fmt.Sprintf("method:%s", method), "how:"+how, fmt.Sprintf("answer:%dxx", r.code/100))
 		return
 	}
 	if r.code >= 500 {
@@ -129,5 +138,60 @@ func c15oProperty(t *rapid.T, st *Stats) {
 
 func TestC15Overlap(t *testing.T) {
 	st := newStats("TestC15Overlap", "C15", c15oRule)
-	rapid.Check(t, func(rt *rapid.T) { c15oProperty(rt, st) })
+	rapid.Check(t, func(rt *rapid.T) { c15oProperty(rt, st, "C15") })
+}
+
+// ---- the same overlap judged by C08: "ceases to exist after ... cancellation ... further use is refused, no partial
+// content ever becomes a blob and no temporary file remains".
+
+const c08oRule = "TestC08Overlap: the generator of TestC15Overlap (a PATCH or completing PUT whose body is interrupted after a drawn number of bytes by a DELETE of the session or by eviction); oracle after a cancel: the status " +
+	"query and a further chunk are refused, neither the bytes accepted before the overlapped chunk, nor those plus the delivered part, nor the whole content are retrievable as a blob under their digest unless the PUT was answered 201 " +
+	"(then exactly the whole content is), and the directory store's _uploads holds no file; non-trivial = interrupted strictly inside the body; distinct = hash of the parameters"
+
+func c08Overlap(t *rapid.T, st *Stats, e *env, how, method string, r resp, loc string, all, content []byte, at int, putDig string) {
+	fail := func(key, f string, a ...any) { Fail(t, st, key, fmt.Sprintf(f, a...), e.trace, nil) }
+	if how != "cancel" {
+		return // which sessions an eviction removes is the cache's choice (C20); C08's bound is checked by TestC08
+	}
+	completed := method == "PUT" && r.code == 201
+	g := e.do("GET", sessionPath(loc), nil, nil)
+	if !completed && (g.code < 400 || g.code >= 500) {
+		fail("cancelled-session-alive", "the session was cancelled (DELETE 202) while a %s was receiving its body; its status query now answers %d", method, g.code)
+	}
+	p := e.do("PATCH", sessionPath(loc), []byte("more"), nil)
+	if p.code < 400 {
+		fail("cancelled-session-usable", "a further chunk on the cancelled session is answered %d", p.code)
+	}
+	before := all[:len(all)-len(content)]
+	cands := map[string][]byte{"the bytes accepted before the overlapped chunk": before, "those plus the delivered part of the chunk": all[:len(before)+at]}
+	if !completed {
+		cands["the whole content"] = all
+	}
+	for what, b := range cands {
+		if len(b) == 0 || (completed && len(b) == len(all)) {
+			continue
+		}
+		x := e.do("GET", "/v2/r/blobs/"+dig("sha256", b), nil, nil)
+		if x.code != 200 {
+			x = e.do("GET", "/v2/r/blobs/"+dig("sha512", b), nil, nil)
+		}
+		if x.code == 200 {
+			fail("partial-content-became-blob", "%s (%d bytes) are served as a blob after the session was cancelled (overlapped %s answered %d)", what, len(b), method, r.code)
+		}
+	}
+	if completed {
+		if x := e.do("GET", "/v2/r/blobs/"+putDig, nil, nil); x.code != 200 || !sameBytes(x.body, all) {
+			fail("completed-blob-wrong", "the PUT was answered 201, the blob answers %d with %d bytes (%d were sent)", x.code, len(x.body), len(all))
+		}
+	}
+	if e.root != "" {
+		if ents, err := os.ReadDir(filepath.Join(e.root, "r", "_uploads")); err == nil && len(ents) > 0 {
+			fail("upload-file-left", "after the cancel %d file(s) remain in _uploads", len(ents))
+		}
+	}
+}
+
+func TestC08Overlap(t *testing.T) {
+	st := newStats("TestC08Overlap", "C08", c08oRule)
+	rapid.Check(t, func(rt *rapid.T) { c15oProperty(rt, st, "C08") })
 }
